@@ -755,3 +755,12 @@ def r06_9(ctx):
                     why = "for k=%d" % kv
             ctx.check(good and bool(ks), "%s.bounds_T bounds the length of its own interval (%s)" % (cname, ast.unparse(m)[:40]), detail="min/max applied to the length of another interval",
                       expected="T_local[k] or T*(n[k+1]-n[k]) for the k at which the row is emitted", found="%s %s" % (pm, why), fi=f, node=y, sample={"bounded": str(pm), "k": ks})
+
+
+@rule("R06.10", min_instances=20, desc="sampled time vectors agree with the grid: the grid walkers return the grid's own times (one per sampled point), root times = integrator point + step*tau, refined times = running step start + equidistant local time of the step (shared with C07 / C08)")
+def r06_10(ctx):
+    from .c07 import r07_2, r07_6
+    from .c08 import r08_2
+    r07_2(ctx)
+    r07_6(ctx)
+    r08_2(ctx)
